@@ -13,6 +13,9 @@
 //!   script = <eff>,<eff>,.../ok | /e<k> | /f<k> | /p<k> | /q<k> | /z<k>      (no effects: "/ok")
 //!            e: Err(String "t<k>")   f: Err(Box<custom error type> displaying "t<k>")
 //!            p: panic!(String "t<k>")   q: panic with a &'static str payload "t<k>"
+//!            y: panic!(String "t<k>") SYNCHRONOUSLY, while the callback builds its future (a non-async
+//!               `fn cb(..) -> impl Future`): the host `HY` (mode send, default build) has that form; effects of a
+//!               /y script are not run
 //!            z: panic_any(<k> as u64), a payload that is no string: the runtime reports the fixed text
 //!               "Unknown panic occurred ..." (logged and modelled as text code 998)
 //!   boom=y (optional, Send / remote hosts): the actor's State has a destructor that PANICS once, armed when
@@ -81,6 +84,8 @@ enum Fin {
     Panic(u64),
     PanicStr(u64),
     PanicAny(u64),
+    /// panic before the callback's future exists
+    SyncPanic(u64),
 }
 
 /// an error type of the user's own (not a String): ActorFailed must carry its Display text
@@ -202,7 +207,7 @@ fn fin_str(f: &Fin) -> String {
     match f {
         Fin::Ok => "ROk".into(),
         Fin::Err(t) | Fin::ErrBox(t) => format!("(RErr {t})"),
-        Fin::Panic(t) | Fin::PanicStr(t) => format!("(RPanic {t})"),
+        Fin::Panic(t) | Fin::PanicStr(t) | Fin::SyncPanic(t) => format!("(RPanic {t})"),
         Fin::PanicAny(_) => format!("(RPanic {UNKNOWN_PANIC})"),
     }
 }
@@ -313,6 +318,7 @@ async fn run_script(ctx: &Arc<Ctx>, me: usize, cb: String, script: &Script) -> R
             std::panic::panic_any(s)
         }
         Fin::PanicAny(t) => std::panic::panic_any(t),
+        Fin::SyncPanic(t) => panic!("t{t}"), // (hosts without the explicit form: an ordinary panic)
     }
 }
 
@@ -397,11 +403,33 @@ impl Me {
             self.ctx.bad_state.lock().unwrap().push(v);
         }
     }
-    async fn cb_sup(&self, mut evt: SupervisionEvent) -> Result<(), ActorProcessingErr> {
+    /// a `/y` script: log the callback as entered and failed, then panic - called from the synchronous part of
+    /// a callback written as `fn cb(..) -> impl Future`, i.e. before any future exists
+    fn sync_panic(&self, cb: &str, script: &Script) {
+        if let Fin::SyncPanic(t) = script.1 {
+            self.ctx.log(format!("TEnter {} {cb}", self.me));
+            self.ctx.log(format!("TExit {} {cb} (RPanic {t})", self.me));
+            if cb != "PreStart" {
+                self.ctx.arm_boom(self.me);
+            }
+            panic!("t{t}");
+        }
+    }
+    fn msg_script(&self, m: u64) -> Script {
+        self.ctx.msgs.get(&m).cloned().unwrap_or(Script(vec![], Fin::Ok))
+    }
+    async fn cb_sup(&self, evt: SupervisionEvent) -> Result<(), ActorProcessingErr> {
+        match self.sup_prepare(evt) {
+            Some((cb, s)) => run_script(&self.ctx, self.me, cb, &s).await,
+            None => Ok(()),
+        }
+    }
+    /// the synchronous half of the supervision callback: name of the callback instance and its script
+    fn sup_prepare(&self, mut evt: SupervisionEvent) -> Option<(String, Script)> {
         let who = match evt.actor_cell() {
             Some(c) => self.ctx.index_of(c.get_id()),
             // ProcessGroupChanged / PidLifecycleEvent: not produced by these scenarios
-            None => return Ok(()),
+            None => return None,
         };
         let (name, terminal) = match &mut evt {
             SupervisionEvent::ActorStarted(_) => (format!("(SStarted {who})"), false),
@@ -418,20 +446,15 @@ impl Me {
                 )
             }
             SupervisionEvent::ActorFailed(_, err) => (format!("(SFailed {who} {})", text_code(&err.to_string())), true),
-            _ => return Ok(()),
+            _ => return None,
         };
-        match &self.cfg.sup {
-            Some(s) => run_script(&self.ctx, self.me, format!("(Sup {name})"), s).await,
-            None => {
-                // the trait's default behaviour, made observable
-                let s = if terminal {
-                    Script(vec![Eff::Stop(self.me, None)], Fin::Ok)
-                } else {
-                    Script(vec![], Fin::Ok)
-                };
-                run_script(&self.ctx, self.me, format!("(Sup {name})"), &s).await
-            }
-        }
+        let s = match &self.cfg.sup {
+            Some(s) => s.clone(),
+            // the trait's default behaviour, made observable
+            None if terminal => Script(vec![Eff::Stop(self.me, None)], Fin::Ok),
+            None => Script(vec![], Fin::Ok),
+        };
+        Some((format!("(Sup {name})"), s))
     }
 }
 
@@ -500,6 +523,86 @@ send_host!(HR, true, {
     }
 });
 send_host!(HRT, true, {});
+
+/// mode `send`, default build: the callbacks in the explicit `fn cb(..) -> impl Future + Send` form, whose
+/// synchronous part can panic before a future exists (`/y`).  With the `async-trait` feature every callback
+/// is an `async fn` behind the macro, there is no synchronous part: `HY` is then `H`.
+#[cfg(feature = "async-trait")]
+type HY = H;
+#[cfg(feature = "async-trait")]
+#[allow(non_snake_case)]
+fn HY(me: Me) -> H {
+    H(me)
+}
+
+#[cfg(not(feature = "async-trait"))]
+struct HY(Me);
+
+#[cfg(not(feature = "async-trait"))]
+impl Actor for HY {
+    type Msg = HMsg;
+    type State = HState;
+    type Arguments = ();
+
+    fn pre_start(
+        &self,
+        _myself: ActorRef<HMsg>,
+        _: (),
+    ) -> impl std::future::Future<Output = Result<HState, ActorProcessingErr>> + Send {
+        self.0.sync_panic("PreStart", &self.0.cfg.pre);
+        async move {
+            self.0.cb_pre_start().await?;
+            let boom = self.0.ctx.boom.lock().unwrap().get(&self.0.me).cloned();
+            Ok(HState { me: self.0.me, n: 0, boom })
+        }
+    }
+    fn post_start(
+        &self,
+        _myself: ActorRef<HMsg>,
+        st: &mut HState,
+    ) -> impl std::future::Future<Output = Result<(), ActorProcessingErr>> + Send {
+        self.0.bump(st);
+        self.0.sync_panic("PostStart", &self.0.cfg.ps);
+        async move { self.0.cb_post_start().await }
+    }
+    fn post_stop(
+        &self,
+        _myself: ActorRef<HMsg>,
+        st: &mut HState,
+    ) -> impl std::future::Future<Output = Result<(), ActorProcessingErr>> + Send {
+        self.0.bump(st);
+        self.0.sync_panic("PostStop", &self.0.cfg.stop);
+        async move { self.0.cb_post_stop().await }
+    }
+    fn handle(
+        &self,
+        _myself: ActorRef<HMsg>,
+        msg: HMsg,
+        st: &mut HState,
+    ) -> impl std::future::Future<Output = Result<(), ActorProcessingErr>> + Send {
+        self.0.bump(st);
+        self.0.sync_panic(&format!("(Handle {})", msg.0), &self.0.msg_script(msg.0));
+        async move { self.0.cb_handle(msg).await }
+    }
+    fn handle_supervisor_evt(
+        &self,
+        _myself: ActorRef<HMsg>,
+        evt: SupervisionEvent,
+        st: &mut HState,
+    ) -> impl std::future::Future<Output = Result<(), ActorProcessingErr>> + Send {
+        self.0.bump(st);
+        let prepared = self.0.sup_prepare(evt);
+        if let Some((cb, s)) = &prepared {
+            self.0.sync_panic(cb, s);
+        }
+        async move {
+            match prepared {
+                Some((cb, s)) => run_script(&self.0.ctx, self.0.me, cb, &s).await,
+                None => Ok(()),
+            }
+        }
+    }
+}
 
 /// the invisible supervisor of `link=-` actors in mode remote-shim: hears everything, does nothing
 struct Root;
@@ -664,6 +767,8 @@ fn parse_script(s: &str) -> Script {
         Fin::PanicStr(u(k))
     } else if let Some(k) = fin.strip_prefix('z') {
         Fin::PanicAny(u(k))
+    } else if let Some(k) = fin.strip_prefix('y') {
+        Fin::SyncPanic(u(k))
     } else {
         panic!("bad fin {fin:?}")
     };
@@ -1027,6 +1132,10 @@ async fn run_case(line: &str) -> String {
         boom: Mutex::new(HashMap::new()),
         join_panic: Mutex::new(vec![]),
     });
+    // a scenario that uses `/y` anywhere is hosted by HY (callbacks in the explicit impl-Future form)
+    let is_y = |s: &Script| matches!(s.1, Fin::SyncPanic(_));
+    let sync_panics = ctx.msgs.values().any(is_y)
+        || actors.iter().any(|c| is_y(&c.pre) || is_y(&c.ps) || is_y(&c.stop) || c.sup.as_ref().map(is_y).unwrap_or(false));
     for (a, c) in actors.iter().enumerate() {
         if c.boom {
             ctx.boom.lock().unwrap().insert(a, Arc::new(AtomicBool::new(false)));
@@ -1154,6 +1263,8 @@ async fn run_case(line: &str) -> String {
                         (Mode::LocalNative, None) if cfg.tdef => {
                             <HNT as ThreadLocalActor>::spawn_instant(None, me, local.as_ref().unwrap().spawner.clone())
                         }
+                        (Mode::Send, Some(s)) if sync_panics => ractor::ActorRuntime::<HY>::spawn_linked_instant(None, HY(me), (), s),
+                        (Mode::Send, None) if sync_panics => ractor::ActorRuntime::<HY>::spawn_instant(None, HY(me), ()),
                         (Mode::Send, Some(s)) => ractor::ActorRuntime::<H>::spawn_linked_instant(None, H(me), (), s),
                         (Mode::Send, None) => ractor::ActorRuntime::<H>::spawn_instant(None, H(me), ()),
                         // thread-local hosts: the cell exists at once, start() runs as a task of the
